@@ -2,12 +2,14 @@ module verif/harness
 
 go 1.21
 
-require github.com/Jigsaw-Code/outline-ss-server v0.0.0
+require (
+	github.com/Jigsaw-Code/outline-sdk v0.0.14
+	github.com/Jigsaw-Code/outline-ss-server v0.0.0
+	golang.org/x/crypto v0.17.0
+)
 
 require (
-	github.com/Jigsaw-Code/outline-sdk v0.0.14 // indirect
 	github.com/shadowsocks/go-shadowsocks2 v0.1.5 // indirect
-	golang.org/x/crypto v0.17.0 // indirect
 	golang.org/x/sys v0.16.0 // indirect
 )
 
